@@ -27,9 +27,8 @@ void sim_clock_advance_to(int64_t ns) {
         int64_t prm;
         /* fault: the wake-up is late (timer slack, slow node): overshoot by up to 5 ms */
         if (sim_decide(F_CLOCK_JUMP, 0, jump_n++, &prm)) {
-            int64_t extra = prm % 5000000;
+            int64_t extra = sim_cfg.explicit_mode ? prm : prm % 5000000;
             sim_fault_fired(F_CLOCK_JUMP, 0, jump_n - 1, extra);
-            if (sim_cfg.explicit_mode) extra = prm;
             ns += extra;
         }
         now_ns = ns;
@@ -44,6 +43,10 @@ int64_t sim_mono_to_sim(int64_t mono_ns) {
 int __wrap_clock_gettime(clockid_t clk, struct timespec *ts) {
     if (!sim_cfg.active) return __real_clock_gettime(clk, ts);
     int64_t t;
+    if (sim_cfg.tick_ns > 0) {
+        now_ns += sim_cfg.tick_ns;
+        sim_bump_epoch();
+    }
     if (clk == CLOCK_REALTIME || clk == CLOCK_REALTIME_COARSE) t = REAL_BASE_NS + now_ns + sim_cfg.clock_phase_ns;
     else t = MONO_BASE_NS + now_ns + sim_cfg.clock_phase_ns;
     ts->tv_sec = t / 1000000000LL;
